@@ -273,7 +273,7 @@ func (x *Exec) hookEvent(st *State, fr *Frame, kind, key string, args []Val, ret
 				continue
 			}
 			st.oblige("mon", c.Label, g, pos, c.Expr, propsOr(c.Props, x.safetyProps()))
-			st.Assume(g)
+			st.assumeAfter("mon", c.Label, g)
 		}
 	}
 }
@@ -453,7 +453,7 @@ func (x *Exec) callByContract(st *State, fr *Frame, fc *FuncContract, ci calleeI
 			lbl = fmt.Sprintf("r%d", i+1)
 		}
 		st.oblige("pre", calleeShort+":"+lbl, g, pos, c.Expr, propsOr(c.Props, propsOr(x.safetyProps(), fc.Props)))
-		st.Assume(g)
+		st.assumeAfter("pre", calleeShort+":"+lbl, g)
 	}
 	if fc.Flags["noreturn"] {
 		return Val{}, true
